@@ -10,9 +10,9 @@ def setup(ctx):
     H.PROBE_RATE = 0.3
 
 
-QUEUED = ["# c1", "L\tA\t+\tB\t-\t*", "P\tp\tA+,B-\t*", "C\tA\t+\tB\t+\t0\t*", "X\tcustom\trecord", "H\taa:i:1",
+QUEUED = ["H\tTS:i:100", "# c1", "L\tA\t+\tB\t-\t*", "P\tp\tA+,B-\t*", "C\tA\t+\tB\t+\t0\t*", "X\tcustom\trecord", "H\taa:i:1",
           "#c2", "H\tbb:Z:x"]
-BAD_DECIDERS = ["H\tVN:Z:3.0", "E\t*\tgarbage", "S\tA", "S\tA\tB\tC\tD", "E\t*\tA+\tB-\t5\t1\t0\t1\t*", "G\t*\tA+\tB\t1\t*",
+BAD_DECIDERS = ["H\tVN:Z:1.0\tTS:i:200", "H\tVN:Z:2.0\tTS:i:300", "H\tVN:Z:3.0", "E\t*\tgarbage", "S\tA", "S\tA\tB\tC\tD", "E\t*\tA+\tB-\t5\t1\t0\t1\t*", "G\t*\tA+\tB\t1\t*",
                 "F\tA\tr\t0\t1\t0\t1\t*", "O\t*\t", "U\tu", "S\tA\t*\tLN:Z:x", "S\tA\t1x\t*", "H\tVN:Z:", "H\tVN:i:1",
                 "E\t*\tA+\tB-\t$\t1\t0\t1\t*", "S\tA\t*\txx:i:1\txx:i:2"]
 GOOD1 = ["S\tA\t*", "S\tB\tACGT", "H\tVN:Z:1.0"]
